@@ -77,14 +77,14 @@ func readIterRest(it moss.Iterator) (s string) {
 	var sb strings.Builder
 	farSeekToggle++
 	if farSeekToggle%2 == 0 {
-		// every other time: first a seek far ahead, past every key of every level, without naive
+		// every other time: first a seek far ahead, past every key of every level, with one naive
 		// steps - the iterator re-creates its cursors and the new ones have no lower-level iterator
 		// (what becomes of the old one is the reference monitor's business); then back to the start
 		// (from the start of the range, where the lower-level iterator is still alive: an iterator that
 		// was scanned to its end has closed it already)
 		it.SeekTo([]byte{})
 		old := moss.DefaultNaiveSeekToMaxTries
-		moss.DefaultNaiveSeekToMaxTries = 0
+		moss.DefaultNaiveSeekToMaxTries = 1
 		e := it.SeekTo([]byte{0xff, 0xff, 0xff, 0xff})
 		moss.DefaultNaiveSeekToMaxTries = old
 		if e != nil && e != moss.ErrIteratorDone {
